@@ -12,6 +12,9 @@ package idna
 //   VerifC50_alabel   A-label rule, every profile (Punycode, Lookup, Display, Registration, New()): the label "xn--"+p with
 //                     p = 1..3 (thorough 5) symbolic bytes from [a-z0-9-] whose payload is invalid or decodes to only
 //                     ASCII must be rejected by ToASCII and ToUnicode.
+//   VerifC50_alabelctx The same rule for the label inside a name: after "" / an ASCII label / a valid A-label / a U-label / an
+//                     empty label (each alone or followed by one more empty label), before "" / the root dot / an ASCII
+//                     label / an empty label + A-label; p = 1..2 (thorough 3) symbolic bytes.
 //   VerifC50_idem     Idempotence on ASCII labels: x = 1..3 (thorough 4) symbolic ASCII bytes (letters of both cases,
 //                     digits, '-', '.', '_'), every profile: if ToASCII accepts x then ToASCII(ToASCII(x)) == ToASCII(x)
 //                     and ToASCII(ToUnicode(x)) == ToASCII(x); the same for "xn--"+p restricted as in VerifC50_alabel.
@@ -39,11 +42,14 @@ package idna
 //   idna.go process: dropping the `unicode16 &&` guard (candidate repair)            check passes, no KNOWN-FINDING
 //   punycode.go madd `int64(b) * int64(c)` -> `int64(b * c)` (seed C50-A)            caught (bigdelta, quick)
 //   idna.go process `isBidi = isBidi || ...` -> `isBidi = ...` (seed C50-B)          caught (names, quick)
+//   idna.go labelIter.next slice mode stops at the first empty label (seed C50-D)     caught (names with empty labels and
+//            alabelctx, quick)
 
 func init() {
 	vfRegister("VerifC50_decenc", VerifC50_decenc)
 	vfRegister("VerifC50_encdec", VerifC50_encdec)
 	vfRegister("VerifC50_alabel", VerifC50_alabel)
+	vfRegister("VerifC50_alabelctx", VerifC50_alabelctx)
 	vfRegister("VerifC50_idem", VerifC50_idem)
 	vfRegister("VerifC50_surrogate", VerifC50_surrogate)
 	vfRegister("VerifC50_bigdelta", VerifC50_bigdelta)
@@ -189,6 +195,35 @@ func VerifC50_alabel() {
 		vfReach("ascii-only-payload")
 	}
 	vfObserveBool("errA", errA != nil)
+	vfReach("end")
+}
+
+// VerifC50_alabelctx (B): the A-label rule wherever the label stands in a name: name = pre + "xn--"+p + post with p = 1..2
+// (thorough 3) symbolic bytes restricted as in VerifC50_alabel, pre one of "" / an ASCII label / a valid A-label / a
+// U-label / an empty label, alone or followed by a further empty label, and post one of "" / the root dot / an ASCII
+// label / an empty label and a valid A-label. (Profile.process switches its label iterator to another representation
+// after the first label it rewrites, so labels behind a decoded A-label or an encoded U-label, and behind empty labels,
+// take a different path from a lone label.) Every profile; ToASCII and ToUnicode must both report an error.
+func VerifC50_alabelctx() {
+	p := c50ldh("payload", vfLen("len", 1, 2+vfTier()))
+	bad, asciiOnly, _ := c50classify(p)
+	vfAssume(bad || asciiOnly)
+	pre := []string{"", "a.", "xn--tda.", "\u00fc.", ".", "a..", "xn--tda..", "\u00fc.."}[vfChoice("pre", 8)]
+	post := []string{"", ".", ".a", "..xn--tda"}[vfChoice("post", 4)]
+	prof := c50profile(vfChoice("profile", 5))
+	x := pre + "xn--" + p + post
+	_, errA := prof.ToASCII(x)
+	_, errU := prof.ToUnicode(x)
+	known := !bad && asciiOnly
+	vfAssertKF(errA != nil, "ToASCII rejects a name with an A-label of invalid or ASCII-only payload at any position", "C50-ascii-alabel", known)
+	vfAssertKF(errU != nil, "ToUnicode rejects a name with an A-label of invalid or ASCII-only payload at any position", "C50-ascii-alabel", known)
+	if bad {
+		vfReach("ctx-invalid-payload")
+	} else {
+		vfReach("ctx-ascii-only-payload")
+	}
+	vfObserveBool("errA", errA != nil)
+	vfObserveStr("x", x)
 	vfReach("end")
 }
 
@@ -432,6 +467,7 @@ var c50atoms = []rune{'a', '1', '-', 'A', 0xfc, 0x5d0, 0x627, 0x660}
 // VerifC50_names (B): multi-label names whose labels are enumerated over every sequence of atoms from c50atoms (quick:
 // one label of 1..3 atoms, two labels of 1..2 atoms, three labels of 1 atom; thorough: in names of two or three labels
 // one label, at any position, may have one more atom), each non-ASCII label spelled either as a U-label or as the A-label produced by encode
+// (labels may also be EMPTY - 0 atoms -: leading, interior "a..b", trailing root "a."; the non-verifying profiles accept them)
 // (so the name-wide state of Profile.process - the bidi flag accumulated over U-labels and decoded A-labels, the error
 // of an earlier label - is exercised in every order and spelling); profiles Punycode, Lookup,
 // Display, Registration. Concrete inputs: the x/text tries are walked concretely. Oracle = the statement: if ToASCII
@@ -450,7 +486,14 @@ func VerifC50_names() {
 		if i == long {
 			maxAtoms++
 		}
-		na := vfLen("atoms", 1, maxAtoms)
+		na := vfLen("atoms", 0, maxAtoms) // 0 atoms: an empty label (leading, interior "a..b", or the trailing root "a.")
+		if na == 0 && nl > 1 {
+			if i == nl-1 {
+				vfReach("names-trailing-root")
+			} else {
+				vfReach("names-empty-label")
+			}
+		}
 		rs := make([]rune, na)
 		nonASCII := false
 		for j := range rs {
@@ -481,6 +524,7 @@ func VerifC50_names() {
 		vfReach("end")
 		return
 	}
+	vfAssert(isASCII(a1), "the result of ToASCII is ASCII (every label an LDH label or an A-label)")
 	a2, err2 := prof.ToASCII(a1)
 	vfAssert(err2 == nil && a2 == a1, "ToASCII(ToASCII(x)) == ToASCII(x)")
 	u, _ := prof.ToUnicode(x)
